@@ -105,6 +105,9 @@ def gen_universe(rng, n=None, heavy=0.08):
         k = keys['k0']
         k['foreign_uid'] = rng.choice(['Latin\xe9 N\xe4me <l@example.org>'.encode('latin-1'), b'Foreign Key <f@example.org>']).hex()
         k['alg'] = 'ed25519'
+        if rng.random() < 0.25:
+            # the secret parts live on a smartcard: GnuPG exports stubs (S2K 101, mode 2, card serial)
+            k['foreign_stub'] = True
         if rng.random() < 0.6:
             k['foreign_sub'] = {'curve': rng.choice(['cv25519', 'cv25519', 'ecdh_p256', 'ecdh_p384', 'ecdh_p521', 'elg2048']),
                                 'kdf': rng.choice([[8, 7], [10, 9], [9, 8], [10, 7], [8, 9], [9, 9]])}
@@ -176,6 +179,7 @@ class KeyHistory(object):
         self.priv = {}
         self.model = {}
         self.held_pub = {}          # name -> strong reference to a derived public twin (or absent)
+        self.ghosts = []
         self.pub_only = {}          # name -> True when the party only has the public key (after a pub export/import)
         self.cfg = keys_cfg
         clock = seams.clock()
@@ -250,6 +254,15 @@ class KeyHistory(object):
                                                kdf=fs['kdf'])
             subs.append((sb, salg, ssec, 0x0C))
         tkb = bridge.build_ref_tkey(body, alg, sec, bytes.fromhex(c['foreign_uid']), created, secret_export=True, subkeys=subs)
+        if c.get('foreign_stub'):
+            out = bytearray()
+            for p in split_packets(tkb):
+                if p.tag in (5, 7):
+                    out += encode_packet(p.tag, rkeys.build_gnu_dummy_body(rkeys.parse_pub(p.body).body, seams.derive(rs, 'foreignkey:' + name, 'card', 16)))
+                else:
+                    out += p.raw
+            tkb = bytes(out)
+            self.ctx.probe('foreign_card_stub_key')
         return self.pgpy.PGPKey.from_blob(tkb)[0]
 
     def _unlocked(self, name):
@@ -282,6 +295,9 @@ class KeyHistory(object):
             return 'nokey'
         if self.pub_only.get(name) and op not in ('tick', 'export_import', 'copy_key', 'drop_pub', 'derive_pub'):
             return 'pubonly'
+        if self.cfg.get(name, {}).get('foreign_stub') and op not in ('tick', 'export_import', 'copy_key', 'drop_pub', 'derive_pub'):
+            # a key whose secrets live on a card cannot act; what it is put through here is copying, deriving and hops
+            return 'cardstub'
         fn = getattr(self, '_op_' + op)
         try:
             return fn(st, name, self.priv[name], self.model[name]) or 'ok'
@@ -519,12 +535,30 @@ class KeyHistory(object):
             self.ctx.probe('twin_collected')
 
     def _op_copy_key(self, st, name, k, mk):
+        # the original and its living public twin stay around as "ghosts": nothing that happens to the copy may show on them
+        twin = None
+        if not k.is_public and len(self.ghosts) < 2:
+            twin = self.held_pub.get(name) or k.pubkey
         new = copy.copy(k)
+        if twin is not None:
+            self.ghosts.append({'name': name, 'old': k, 'twin': twin, 'priv': bytes(k), 'pub': bytes(twin)})
+            self.ctx.probe('ghost_of_copied_key_kept')
         h = self.hooks.get('on_copy')
         if h:
             h(self, name, k, new)
         self.priv[name] = new
         self.held_pub.pop(name, None)
+
+    def ghost_violations(self):
+        out = []
+        for g in self.ghosts:
+            if bytes(g['old']) != g['priv']:
+                out.append('the key %s was copied from exports other octets after operations on the copy' % g['name'])
+            if bytes(g['twin']) != g['pub']:
+                out.append('the public twin held for the original of %s changed after operations on its copy' % g['name'])
+            elif bytes(g['old'].pubkey) != g['pub']:
+                out.append('the public half of the original of %s differs from what it was when the copy was taken' % g['name'])
+        return out
 
     def export(self, name, half='priv', armor=False, perturb=()):
         k = self.priv[name]
